@@ -159,6 +159,20 @@ def monitor(ctx, extended=False):
             v = (vw, Dp, dw, d85, eps, nu, rhol, rhos, Cv, musf)
             ident(ctx, 'Wilson V50', WV.heterogeneous_head_loss(*v), WV.Erhg(*v[:8], musf), ilw, rsd, Cv, WV.heterogeneous_pressure_loss(*v), rhol, {'args': list(v)})
             classes.add(('f<1' if d < 0.015 * Dp else 'f>=1', sf, sq))
+            # the framework as a whole, delivered-concentration form: the mixture gradient a regime entry stands for (entry x Rsd x Cvt + il) is the
+            # one the spatial form gives at the concentration derived from Cvt (entry x Rsd x Cvs + il) - the same slurry described two ways
+            if ctx.rng.random() < 0.3:
+                dt = F.Cvt_Erhg(*a, get_dict=True)
+                cvs = F.Cvs_from_Cvt(*a)
+                if isinstance(cvs, float) and 0 < cvs < 0.58:
+                    ds = F.Cvs_Erhg(*a[:7], cvs, get_dict=True)
+                    for r_ in ('FB', 'SB', 'He', 'Ho'):
+                        ctx.count('evaluations')
+                        m_t, m_s = dt[r_] * rsd * Cv + il, ds[r_] * rsd * cvs + il
+                        if not rel_close(m_t, m_s, 1e-9):
+                            ctx.violation(f'framework, regime {r_}: mixture gradient from the delivered-concentration result {m_t!r} differs from the one at the derived spatial concentration {m_s!r}',
+                                          inp, key='framework-cvt')
+                            break
         except Exception as e:   # noqa
             ctx.violation(f'raised {type(e).__name__}: {e}', inp, key='identity')
     # slurry objects: tables and pointwise methods, graded sum
@@ -210,4 +224,31 @@ def monitor(ctx, extended=False):
             classes.add(('slurry', p['fluid'], p['D50'] > 0.015 * p['Dp']))
         except Exception as e:   # noqa
             ctx.violation(f'slurry object raised {type(e).__name__}: {e}', {'slurry': p}, key='tables')
+    # slurry objects that are copies of each other (the per-diameter slurries of a pipeline): the tables of A, then of B, then of A again - each object's
+    # pointwise methods must agree with ITS OWN tables at every look
+    from DHLLDV.PipeObj import Pipe, Pipeline
+    for _ in range(ctx.n(3, 60)):
+        p = E.slurry_params(ctx.rng)
+        try:
+            base = E.make_slurry(p, max_index=ctx.rng.choice([20, 37]))
+            nu_, rhol_ = E.fluids()[p['fluid']]
+            dias = [d for d in (0.4, 0.5, 0.6, 0.762, 0.9) if p['D50'] >= 1.001 * E.dlim(d, nu_, rhol_, p['rhos']) and p['D50'] * p['r85'] <= 0.5 * d]
+            if len(dias) < 2:
+                continue
+            d1, d2 = ctx.rng.sample(dias, 2)
+            pl = Pipeline(pipe_list=[Pipe('a', d1, 0.0, 0.5, -4.0), Pipe('b', d1, 300.0, 0.5, 1.0), Pipe('c', d2, 500.0, 1.0, 2.0)], slurry=base)
+            for look, obj in enumerate([pl.slurries[d1], pl.slurries[d2], pl.slurries[d1], pl.slurry, pl.slurries[d2]]):
+                ic, ec = obj.im_curves, obj.Erhg_curves
+                for i in ctx.rng.sample(range(len(obj.vls_list)), 6):
+                    v = obj.vls_list[i]
+                    ctx.count('evaluations')
+                    ilv = Ho.fluid_head_loss(v, obj.Dp, obj.epsilon, obj.nu, obj.rhol)
+                    if not (rel_close(ic['il'][i], ilv, TOL) and rel_close(obj.il(v), ic['il'][i], TOL) and rel_close(obj.Erhg(v), ec['graded_Cvt_Erhg'][i], TOL)
+                            and rel_close(obj.im(v), ic['graded_Cvt_im'][i], TOL)):
+                        ctx.violation(f'look {look} (diameter {obj.Dp}): pointwise il/Erhg/im at tabulated speed {v} differ from the object\'s own tables',
+                                      {'slurry': p, 'diameters': [d1, d2], 'looks': 'slurries[d1], slurries[d2], slurries[d1], pipeline slurry, slurries[d2]', 'index': i}, key='tables-copies')
+                        break
+            classes.add(('copies', p['fluid']))
+        except Exception as e:   # noqa
+            ctx.violation(f'pipeline copies raised {type(e).__name__}: {e}', {'slurry': p}, key='tables-copies')
     ctx.stats['distinct_nontrivial'] = len(classes)
